@@ -1,7 +1,7 @@
 // Command c03 executes C03 / C13 / C14 scenarios against the real ratelimit, collections and
 // connlimit packages (exported API + the repo's frozen clock).
 //
-//	cfg rate <p:a:b[,p:a:b…]> cap=<n> [solo=1]      TokenLimiter (solo=1: plus one private limiter per source)
+//	cfg rate <p:a:b[,p:a:b…]> cap=<n>|cap=default [solo=1]      TokenLimiter (cap=default: no Capacity option) (solo=1: plus one private limiter per source)
 //	  at <ns> req <src> <amount> [rates=<…>] [evict=<src>]   -> 200 | 429 <delay_ns> | 500   [solo=<…>]
 //	  retry [extra=<ns>]                                      -> <resp> t=<ns> | noretry
 //	  at <ns> preq <src> <amount> <n> <goroutines> [rates=<…>] -> 200=<a> 429=<b> 500=<c>
@@ -147,7 +147,10 @@ func newLimiter(rates string, capacity int, opts ...ratelimit.TokenLimiterOption
 		}
 		return ratelimit.NewRateSet(), nil
 	})
-	opts = append(opts, ratelimit.Capacity(capacity), ratelimit.ExtractRates(extractRates))
+	if capacity != 0 { // 0 = `cap=default`: no Capacity option at all (DefaultCapacity)
+		opts = append(opts, ratelimit.Capacity(capacity))
+	}
+	opts = append(opts, ratelimit.ExtractRates(extractRates))
 	return ratelimit.New(okHandler, extractor, rs, opts...)
 }
 
@@ -554,7 +557,13 @@ func main() {
 			if len(cfg) < 3 {
 				return nil, "bad-cfg"
 			}
-			capacity := hx.KVInt(cfg, "cap", 0)
+			capacity := 0
+			if v, ok := hx.KV(cfg, "cap"); ok && v != "default" {
+				capacity = hx.Atoi(v)
+				if capacity <= 0 {
+					return nil, "err badcap" // ratelimit.Capacity rejects it
+				}
+			}
 			pk := &parker{entered: make(chan struct{}), release: make(chan struct{})}
 			tl, err := newLimiter(cfg[2], capacity, ratelimit.ErrorHandler(pk))
 			if err != nil {
